@@ -51,7 +51,17 @@ func c05RunX(rc *simrt.RunCtx, faults, inject bool) {
 	if maxV == 0 && authSize > 400 {
 		authSize = 400
 	}
-	st := newStack(rc, rl, pr, authSize, maxV)
+	maxVC, maxVS := maxV, maxV
+	if rc.Pick(5, "knob.mixedversions") == 4 && maxV > 0 {
+		// peers of different age: the older one caps the negotiated version
+		// (only the server may be the older one: the responder answers with
+		// its own maximum version, an older client cannot follow)
+		maxVS = maxV - 1
+	}
+	if maxVS == 0 && authSize > 400 {
+		authSize = 400 // a version 0 responder cannot carry more than 498 bytes
+	}
+	st := newStackV(rc, rl, pr, authSize, maxVC, maxVS)
 	big := rc.Pick(8, "wl.big") == 0
 	st.planBytes = func(string, int) int {
 		if big {
@@ -145,7 +155,9 @@ func c05RunX(rc *simrt.RunCtx, faults, inject bool) {
 		st.S.mu.Lock()
 		sk := len(st.S.gotKeys)
 		st.S.mu.Unlock()
-		if (ck > 0) != (sk > 0) {
+		if one, who := st.oneSidedPairing(); one {
+			rc.Violate("c05.one-sided-pairing", "keys-stored-on-one-side", "a handshake completed on both sides (data flowed both ways) yet %s; the parties now wait for each other at different rendezvous and no transfer can complete", who)
+		} else if (ck > 0) != (sk > 0) {
 			// Half-pairing: the three-message handshake completed on one side
 			// only (the initiator stores the responder's key as soon as act 3
 			// is handed to GBN; the responder gave up waiting for it). The two
